@@ -94,6 +94,7 @@ let () =
   let fxc = ref [] and ftx = ref [] and rfiles = ref [] and cur_rates = ref [] in
   let rows = ref [] and awards = ref None and cur_details = ref [] in
   let dtx = ref [] in
+  let fr = ref [] and fe = ref [] and fnw = ref [] and pt = ref [] and orc = ref [] in
   let txs = ref [] and exs = ref [] and yf = ref None and id = ref "" in
   let reset () = txs := []; exs := []; yf := None in
   (try while true do
@@ -101,7 +102,7 @@ let () =
     let t = String.split_on_char ' ' (String.trim line) in
     let q = qc_of_string in
     match t with
-    | ["CASE"; i] -> reset (); dtx := []; rows := []; fxc := []; ftx := []; rfiles := []; cur_rates := []; awards := None; cur_details := []; id := i
+    | ["CASE"; i] -> reset (); dtx := []; fr := []; fe := []; fnw := []; pt := []; orc := []; rows := []; fxc := []; ftx := []; rfiles := []; cur_rates := []; awards := None; cur_details := []; id := i
     | ["FX"; c; y; m; r] -> fxc := (((text_of_string c, z_of_string y), z_of_string m), qc_of_string r) :: !fxc
     | "FTX" :: y :: m :: d :: tick :: rest ->
         let a v c = { am_val = qc_of_string v; am_cur = text_of_string c } in
@@ -198,6 +199,71 @@ let () =
           (match back with
            | Inl (n, e) -> let rec ni = function O -> 0 | S k -> 1 + ni k in Printf.sprintf "{\"ok\":false,\"line\":%d,\"why\":%s}" (ni n) (js (perr_s e))
            | Inr b -> Printf.sprintf "{\"ok\":true,\"txns\":%s,\"printed_again_hex\":%s}" (jlist (fun t -> js (string_of_text (show_txn t))) b) (js (hex (string_of_text (print_txns b)))))
+    | ["RUN"; "json_write"] ->
+        (* the tree the JSON serialiser writes for the DTX transactions, as JSON text with hex-coded strings *)
+        let rec jtxt = function
+          | JStr s -> js (hex (string_of_text s))
+          | JObj fs -> "{" ^ String.concat "," (List.map (fun (k, v) -> js (hex (string_of_text k)) ^ ":" ^ jtxt v) fs) ^ "}"
+          | JOther -> "null" in
+        Printf.printf "{\"id\":%s,\"trees\":%s}\n" (js !id) (jlist (fun t -> jtxt (to_json t)) (List.rev !dtx))
+    | "RUN" :: "json_read" :: toks ->
+        (* tokens: L<n> then n values; value = S<hex> | X | O<n> followed by n pairs K<hex> value *)
+        let toks = ref toks in
+        let next () = match !toks with t :: r -> toks := r; t | [] -> failwith "json_read: short" in
+        let body t = String.sub t 1 (String.length t - 1) in
+        let rec value () =
+          let t = next () in
+          match t.[0] with
+          | 'S' -> JStr (text_of_string (unhex (body t)))
+          | 'X' -> JOther
+          | 'O' -> let n = int_of_string (body t) in
+                   let rec fields k = if k = 0 then [] else
+                     let kt = next () in let key = text_of_string (unhex (body kt)) in
+                     let v = value () in (key, v) :: fields (k - 1) in
+                   JObj (fields n)
+          | _ -> failwith ("json_read token " ^ t) in
+        let n = int_of_string (body (next ())) in
+        let rec vals k = if k = 0 then [] else let v = value () in v :: vals (k - 1) in
+        let js_ = vals n in
+        (match read_txns valid_cur js_ with
+         | JOk ts -> Printf.printf "{\"id\":%s,\"res\":\"ok\",\"txns\":%s}\n" (js !id) (jlist (fun t -> js (string_of_text (show_txn t))) ts)
+         | JReject -> Printf.printf "{\"id\":%s,\"res\":\"reject\"}\n" (js !id)
+         | JUnmodelled -> Printf.printf "{\"id\":%s,\"res\":\"unmodelled\"}\n" (js !id))
+    | ["FR"; p; c] -> fr := (unhex (String.sub p 1 (String.length p - 1)), unhex (String.sub c 1 (String.length c - 1))) :: !fr
+    | ["FE"; p] -> fe := unhex (String.sub p 1 (String.length p - 1)) :: !fe
+    | ["FNW"; p] -> fnw := unhex (String.sub p 1 (String.length p - 1)) :: !fnw
+    | ["PT"; c; ok] -> pt := (unhex (String.sub c 1 (String.length c - 1)), ok = "1") :: !pt
+    | "OR" :: kvs -> orc := List.map (fun kv -> match String.index_opt kv '=' with
+                                        | Some i -> (String.sub kv 0 i, String.sub kv (i + 1) (String.length kv - i - 1))
+                                        | None -> (kv, "")) kvs
+    | "RUN" :: (("cli_report" | "cli_parse" | "cli_convert") as which) :: cargs ->
+        (* the command layer on a described file system with described outcomes of the computations *)
+        let hx f = if f = "-" then None else Some (text_of_string (unhex (String.sub f 1 (String.length f - 1)))) in
+        let flag k = (try List.assoc k !orc = "1" with Not_found -> false) in
+        let txt k = (try hx (List.assoc k !orc) with Not_found -> None) in
+        let unknown = ref [] in
+        let fs = { f_read = (fun p -> try Some (text_of_string (List.assoc (string_of_text p) !fr)) with Not_found -> None);
+                   f_exists = (fun p -> List.mem (string_of_text p) !fe);
+                   f_can_write = (fun p -> not (List.mem (string_of_text p) !fnw)) } in
+        let parse c = (match List.assoc_opt (string_of_text c) !pt with
+                       | Some true -> Some () | Some false -> None
+                       | None -> unknown := hex (string_of_text c) :: !unknown; None) in
+        let files f = if f = "-" then [] else List.map (fun h -> text_of_string (unhex (String.sub h 1 (String.length h - 1)))) (String.split_on_char ',' f) in
+        let (effs, st) = (match which, cargs with
+          | "cli_report", [f; y; fm; o; fx] ->
+              report_cmd parse (fun _ -> if flag "fx" then Some () else None) (if flag "cfg" then Some () else None)
+                (fun () _ () () -> if flag "calc" then Some () else None)
+                (fun () -> txt "plain") (fun () -> txt "json") (fun () -> txt "pdf")
+                fs (files f) (if y = "-" then None else Some (n_of_z (z_of_string y)))
+                (match fm with "plain" -> Plain | "json" -> Json | _ -> Pdf) (hx o) (hx fx)
+          | "cli_parse", [f; sc] -> parse_cmd parse (fun () -> txt "tojson") (txt "schema") fs (files f) (sc = "1")
+          | "cli_convert", [e; a; o] ->
+              convert_cmd (fun _ _ -> txt "conv") fs (match hx e with Some t -> t | None -> []) (hx a) (hx o)
+          | _ -> failwith ("bad cli line: " ^ line)) in
+        let je = function
+          | Out b -> Printf.sprintf "{\"out\":%s}" (js (hex (string_of_text b)))
+          | Write (p, b) -> Printf.sprintf "{\"write\":%s,\"bytes\":%s}" (js (hex (string_of_text p))) (js (hex (string_of_text b))) in
+        Printf.printf "{\"id\":%s,\"ok\":%b,\"effects\":%s,\"unknown_content\":%s}\n" (js !id) (st = Exit0) (jlist je effs) (jlist js !unknown)
     | ["X"; y; v] -> exs := (z_of_string y, q v) :: !exs
     | ["Y"; y] -> yf := Some (z_of_string y)
     | "T" :: d :: tick :: rest ->
